@@ -11,7 +11,7 @@ RANDOM = [
     ['gb:7:11,gb:8:12', 'gb:9:21,gb:1:22', 'gb:16:31,gtal:40:32'],
     ['gtal:3:11,gb:15:12', 'gtal:17:21', 'gb:17:31,pb:32'],
 ]
-FAULT = [('ctor', 20, 'pb:1,gb:5:2,gb:9:3'), ('alloc', 6, 'pb:1,gb:5:2,gb:9:3,gb:20:4'), ('ctor', 12, 'gb:3:1,gtal:12:2'), ('alloc', 5, 'gtal:20:1,pb:2'),
+FAULT = [('ctor', 12, 'pb:1,pb:2,pb:3,pb:4,pb:5,gb:100:7'), ('ctor', 6, 'gb:20:1,gb:200:2'), ('ctor', 20, 'pb:1,gb:5:2,gb:9:3'), ('alloc', 6, 'pb:1,gb:5:2,gb:9:3,gb:20:4'), ('ctor', 12, 'gb:3:1,gtal:12:2'), ('alloc', 5, 'gtal:20:1,pb:2'),
          ('ctor', 30, 'gb:2:1,gb:2:2,gb:30:3'), ('alloc', 8, 'pb:1,pb:2,pb:3,gb:6:4,gb:40:5')]
 
 
